@@ -1,6 +1,7 @@
 package ratelimiter
 
 import (
+	"strconv"
 	"sync/atomic"
 	"time"
 
@@ -176,6 +177,29 @@ func VerifC09Cleanup() {
 	if present {
 		verifrt.Assert(v.(*bucket) == b && b.tokens == tok, "surviving bucket is unchanged")
 	}
+}
+
+// VerifC09ManyClients: n clients with exhausted buckets used within the last
+// hour; a cleanup pass keeps every one of them (a client whose bucket is
+// dropped would get a fresh burst), whatever the size of the table.
+func VerifC09ManyClients(n int) {
+	max := verifrt.IntRange("max", 1, 5)
+	rl := verifLimiter(max, time.Hour)
+	age := time.Duration(verifrt.IntRange("age", 0, int(time.Hour)))
+	names := make([]string, n)
+	for i := 0; i < n; i++ {
+		names[i] = "10.0." + strconv.Itoa(i/256) + "." + strconv.Itoa(i%256)
+		rl.buckets.Store(names[i], &bucket{tokens: 0, lastRefill: verifrt.Now().Add(-age)})
+	}
+	rl.cleanup()
+	kept := 0
+	for i := 0; i < n; i++ {
+		if _, ok := rl.buckets.Load(names[i]); ok {
+			kept++
+		}
+	}
+	verifrt.Assert(kept == n, "every bucket used within the last hour survives cleanup, however many clients are tracked")
+	verifrt.Assert(!rl.Allow(names[n-1]) || age >= time.Hour, "a client that had exhausted its burst is not handed a fresh one by cleanup")
 }
 
 // VerifC09Concurrent: n goroutines hit one client's bucket simultaneously.
